@@ -252,7 +252,11 @@ def run_impl(c):
             db.conn.close()
             db = gffutils.FeatureDB(dbfn)
             r = db.dialect
+            # ... and the added line was read in the dialect it is written in, not in the database's
+            added = [dict((k, list(v)) for k, v in f.attributes.items()) for f in db.features_of_type("region") if f.seqid == "chr9"]
             db.conn.close()
+            if added != [{"zz_key": ["1"], "zz_other": ["2"]}]:
+                raise ValueError("update() stored %r for the added line" % (added,))
             return r
         if out["reopen"][0] == "ok":
             out["updated"] = attempt(updated)
